@@ -1,7 +1,7 @@
 /* C18 - custom Huffman tables built from any histogram are valid and usable. */
 #include "stream_explore.h"
 
-extern volatile int v_fault_sig;
+
 static struct isal_huff_histogram H;
 static struct isal_hufftables HT;
 static uint8_t *ebuf, *eout, *cbuf;
